@@ -2,12 +2,12 @@ from registry import reg, Check
 
 reg(Check(
     "C09", "c09",
-    coq_targets=["CTree/CTreeCheck.vo", "CTree/CTreeExamples.vo", "Props/C09.vo"],
+    coq_targets=["CTree/CTreeCheck.vo", "CTree/CTreeHandle.vo", "CTree/CTreeExamples.vo", "Props/C09.vo"],
     assumptions=[
         "values stored in the tree are non-nil (a nil-valued leaf is indistinguishable from an empty node in ctree)",
         "single goroutine (C10 covers concurrency)",
     ],
-    modelled=["ctree/tree.go: Add, Get, GetLeaf, GetLeafValue, Query, Walk, WalkSorted, Delete, DeleteConditional, WalkDeleted, Children, IsBranch (String() not modelled)"],
+    modelled=["ctree/tree.go: Add, Get, GetLeaf, GetLeafValue, Query, Walk, WalkSorted, Delete, DeleteConditional, WalkDeleted, Children, IsBranch, Leaf.Value, Leaf.Update through handles kept across later operations (String() and DetachedLeaf not modelled)"],
 ),
-    level_text="Theorems in coq/Props/C09.v state the property over the Gallina model of ctree for all operation sequences (refinement to a flat prefix-free map, exact query/walk/delete sets, sorted walks, pruning); the model is tied to ctree/tree.go by a correspondence run (all short operation sequences over a fixed alphabet + seeded random sequences) evaluated inside Coq, which also applies the flat-map specification to the implementation's own answers.",
+    level_text="Theorems in coq/Props/C09.v state the property over the Gallina model of ctree for all operation sequences (refinement to a flat prefix-free map, exact query/walk/delete sets, sorted walks, pruning; leaf handles: a live handle is the stored leaf, a handle whose leaf was deleted is inert); the model is tied to ctree/tree.go by a correspondence run (all short operation sequences over a fixed alphabet + seeded random sequences) evaluated inside Coq, which also applies the flat-map specification to the implementation's own answers.",
     level_note="Trusted: Coq kernel + vm_compute, the hand-written model (validated only on the explored cases), the Go harness projection. Non-nil values, single goroutine.")
